@@ -36,7 +36,7 @@ git -C $target apply $src/patch.diff || { echo "patch does not apply to $target"
 VD=${SEED_VERIF:-/verif}
 out=$(timeout 3600 $VD/checks/run.sh $prop $tier 2>&1); code=$?
 others=""
-if [ $code -ne 1 ]; then
+if [ $code -ne 1 ] && [ -z "${SEED_NO_OTHERS:-}" ]; then
   # not reported by the property's own check: which other checks report it?
   for o in C01 C02 C03 C04 C08 C10 C11 C12 C13 C14 C15 C16 C17 C18 C20; do
     [ $o = $prop ] && continue
